@@ -19,6 +19,7 @@ from d42.declaration.types import (
     StrSchema,
     TypeAliasPropsType,
     UUID4Schema,
+    optional,
 )
 from d42.utils import from_native, is_ellipsis
 from d42.validation import Formatter, Validator
@@ -176,6 +177,8 @@ class Substitutor(SchemaVisitor[GenericSchema]):
             for key, val in value.items():
                 if is_ellipsis(key) != is_ellipsis(val):
                     raise SubstitutionError("Can't substitute ...")
+                if isinstance(key, optional):
+                    raise SubstitutionError(f"Can't substitute {key!r}")
                 keys[key] = (... if is_ellipsis(val) else self._from_native(val), False)
             if (schema.props.keys is not Nil) and (... in schema.props.keys):
                 keys[...] = (..., False)
